@@ -30,7 +30,7 @@ m = {
         'add_only': True,
     },
     'engines': [{'name': 'verus-contracts', 'path': '/verif/check', 'serves_properties': [c['property_id'] for c in checks],
-                 'kind_free_text': 'tools/extract.py assembles one Verus input from the current /repo/src (rules D1-D3, R1-R14, G1-G4 of DESIGN.md section 3), splices the contracts of spec/*.toml, runs verus, maps each failed obligation to its labelled clause / function; after a rejection (or for a function Verus cannot decide) a paired bounded Kani harness looks for a concrete failing input and replays it on the real crate'}],
+                 'kind_free_text': 'tools/extract.py assembles one Verus input from the current /repo/src (rules D1-D3, R1-R15, G1-G4 of DESIGN.md section 3), splices the contracts of spec/*.toml, runs verus, maps each failed obligation to its labelled clause / function. An OK is only ever Verus having discharged every obligation. Search for a failing input (bounded, never counted as proved): the property\'s native executable oracles (kani/replay_src, fixed-seed structured families, built against the current tree) run in the quick tier, and after a rejection (or for a function Verus cannot decide) the paired native family / bounded Kani harness is searched; an input that fails when replayed on the real crate is reported as a violation'}],
     'checks': checks,
     'not_applicable': na,
     'notes': P.get('notes', ''),
